@@ -30,6 +30,8 @@ type Store struct {
 	Hook func(op string, key uint) error
 	// OnOp, when set, is told about every completed operation (after the fact).
 	OnOp func(op Op, found bool)
+	// ListOrder, when set, permutes the result of List.
+	ListOrder func(keys []uint)
 	// Alias makes Load hand out the stored slice itself instead of a copy.
 	Alias bool
 }
@@ -122,6 +124,9 @@ func (s *Store) List() ([]uint, error) {
 		keys = append(keys, k)
 	}
 	sort.Slice(keys, func(i, j int) bool { return keys[i] < keys[j] })
+	if s.ListOrder != nil {
+		s.ListOrder(keys) // "List enumerates all available in any order"
+	}
 	s.Log = append(s.Log, Op{Op: "List"})
 	return keys, nil
 }
